@@ -877,6 +877,24 @@ func ruleWireFields(c *Ctx) {
 						}
 					}
 				}
+			case *ast.CallExpr:
+				// a generated nil-safe getter X.GetF() is a read of the field F
+				if se, isSel := s.Fun.(*ast.SelectorExpr); isSel && len(s.Args) == 0 && strings.HasPrefix(se.Sel.Name, "Get") {
+					if sel := info.Selections[se]; sel != nil && sel.Kind() == types.MethodVal {
+						o := owner(info, se.X)
+						if mf, isF := sel.Obj().(*types.Func); isF && mf.Pkg() != nil && strings.HasSuffix(mf.Pkg().Path(), "/internal/plugin") && msgs[o] {
+							if st, isSt := derefType(info.TypeOf(se.X)).Underlying().(*types.Struct); isSt {
+								for i := 0; i < st.NumFields(); i++ {
+									if st.Field(i).Name() == strings.TrimPrefix(se.Sel.Name, "Get") {
+										if n, ok := isMsgField(st.Field(i)); ok {
+											read[o+"."+n] = p.Pos(s)
+										}
+									}
+								}
+							}
+						}
+					}
+				}
 			case *ast.SelectorExpr:
 				fv := SelField(info, s)
 				n, ok := isMsgField(fv)
